@@ -71,7 +71,7 @@ func c03Input(r *fw.Rand) (string, string) {
 		c := gen.Corpus()
 		head, fam = c[r.Intn(len(c))], "corpus"
 	default:
-		head, fam = "^st "+r.Pick([]string{"力量60敏捷70", "力量:60 敏捷=70", "力量+1d4", "力量-=2 敏捷+=3", "&手枪=1d6+2", "属性*2.5:5", "'力量 1':3", "力量60"}), "st"
+		head, fam = "^st"+r.Pick([]string{"力量60敏捷70", "力量:60 敏捷=70", "力量+1d4", "力量-=2 敏捷+=3", "&手枪=1d6+2", "属性*2.5:5", "'力量 1':3", "力量60"}), "st"
 	}
 	var tail string
 	switch r.Intn(6) {
